@@ -30,7 +30,10 @@ DDNames == {"..a", "..n1", "..n2", "..n3", "..n4", "..n5", "..n6", "..n7", "..n8
 
 \* ------------------------------------------------------------------ layouts
 Bases     == {<<>>, <<"tmp">>, <<"tmp", "a">>}
-MountSets == { {<<>>}, {<<"tmp">>}, {<<"tmp", "a">>}, {<<"tmp">>, <<"tmp", "a">>}, {<<"a">>, <<"ab">>} }
+\* (the root mount together with deeper ones: the longest COMPONENT-wise prefix wins, however mount points compare as
+\* strings or by depth)
+MountSets == { {<<>>}, {<<"tmp">>}, {<<"tmp", "a">>}, {<<"tmp">>, <<"tmp", "a">>}, {<<"a">>, <<"ab">>},
+               {<<>>, <<"tmp">>}, {<<>>, <<"tmp", "a">>, <<"a">>} }
 Cwds      == {<<>>, <<"tmp">>, <<"tmp", "a">>}
 
 \* ------------------------------------------------------------------ strings as records
